@@ -134,6 +134,10 @@ pub struct DrawRec {
     pub expanded: Vec<(String, Option<Value>)>,
     /// evaluation indices [first, last) consumed by this call
     pub evals: (u64, u64),
+    /// range of SimMath events emitted during this call (indices into History::math_events)
+    pub math: (usize, usize),
+    /// adaptation schedule counters after this call (hook H4), if the strategy has any
+    pub counters: Option<nuts_rs::verif::AdaptCounters>,
 }
 
 impl DrawRec {
@@ -214,6 +218,8 @@ pub struct History {
     pub flow_updates: u64,
     pub budget_exhausted: bool,
     pub math_events: Vec<crate::simmath::MathEvent>,
+    /// counters right after set_position
+    pub init_counters: Option<nuts_rs::verif::AdaptCounters>,
 }
 
 impl History {
@@ -343,15 +349,16 @@ fn run_with<S: Settings>(settings: S, cfg: &ChainCfg) -> History {
     if cfg.observe_math {
         let events: crate::simmath::MathLog = Default::default();
         let m = crate::simmath::SimMath::new(math, log.clone(), events.clone());
-        let mut h = run_inner(settings, m, cfg, log);
+        let mut h = run_inner(settings, m, cfg, log, Some(events.clone()));
         h.math_events = std::mem::take(&mut *events.lock().unwrap());
         h
     } else {
-        run_inner(settings, math, cfg, log)
+        run_inner(settings, math, cfg, log, None)
     }
 }
 
-fn run_inner<S: Settings, M: Math>(settings: S, math: M, cfg: &ChainCfg, log: crate::density::SharedLog) -> History {
+fn run_inner<S: Settings, M: Math>(settings: S, math: M, cfg: &ChainCfg, log: crate::density::SharedLog, events: Option<crate::simmath::MathLog>) -> History {
+    let ev_len = || events.as_ref().map(|e| e.lock().unwrap().len()).unwrap_or(0);
     let mut hist = History {
         schema: None,
         new_chain: CallResult::Ok,
@@ -365,6 +372,7 @@ fn run_inner<S: Settings, M: Math>(settings: S, math: M, cfg: &ChainCfg, log: cr
         flow_updates: 0,
         budget_exhausted: false,
         math_events: vec![],
+        init_counters: None,
     };
     log.lock().unwrap().max_evals = if cfg.max_evals == 0 { 300_000 } else { cfg.max_evals };
     let schema = catch_unwind(AssertUnwindSafe(|| Schema {
@@ -405,6 +413,7 @@ fn run_inner<S: Settings, M: Math>(settings: S, math: M, cfg: &ChainCfg, log: cr
             return hist;
         }
     }
+    hist.init_counters = chain.verif_adapt_counters();
     for i in 0..cfg.n_calls {
         if cfg.reinit_at == Some(i) && i > 0 {
             let r = catch_unwind(AssertUnwindSafe(|| chain.set_position(&cfg.init)));
@@ -425,8 +434,10 @@ fn run_inner<S: Settings, M: Math>(settings: S, math: M, cfg: &ChainCfg, log: cr
             }
         }
         let n0 = log.lock().unwrap().n_evals;
+        let m0 = ev_len();
         let r = catch_unwind(AssertUnwindSafe(|| chain.expanded_draw()));
         let n1 = log.lock().unwrap().n_evals;
+        let m1 = ev_len();
         match r {
             Ok(Ok((pos, mut expanded, mut stats, progress))) => {
                 let (stats_v, exp_v) = {
@@ -449,6 +460,8 @@ fn run_inner<S: Settings, M: Math>(settings: S, math: M, cfg: &ChainCfg, log: cr
                     stats: stats_v,
                     expanded: exp_v,
                     evals: (n0, n1),
+                    math: (m0, m1),
+                    counters: chain.verif_adapt_counters(),
                 });
             }
             Ok(Err(e)) => {
